@@ -163,7 +163,15 @@ func runHistory(r *sup.CaseResult, gen *mfs.Gen, nops int, cfg cfgT, tmp string)
 			}
 			continue
 		}
-		if v.PrecondOK && !v.Ambiguous && !v.Lenient {
+		// a view whose root directory has meanwhile been removed or replaced by a file is no longer
+		// a filespace rooted in a directory: what it answers is outside the stated preconditions
+		viewOK := true
+		if op.View < len(pre.Views) && op.View > 0 {
+			if n := pre.Get(pre.Views[op.View]); n == nil || !n.Dir {
+				viewOK = false
+			}
+		}
+		if v.PrecondOK && viewOK && !v.Ambiguous && !v.Lenient {
 			inPre++
 			if v.Mismatch != "" {
 				fail("mem-vs-model", fmt.Sprintf("step %d %s: memory backend departs from the tree model: %s", i, op, v.Mismatch))
